@@ -54,7 +54,7 @@ func init() {
 			world           string
 			quick, thorough explore.Bounds
 		}
-		runs := []run{{"book", b(2, 2, 2), b(3, 2, 3)}, {"pay", b(1, 1, 2), b(3, 2, 3)}, {"pool", b(1, 1, 2), b(2, 2, 2)}, {"stake", b(1, 1, 2), b(2, 2, 2)}, {"coin", b(1, 1, 2), b(2, 2, 2)},
+		runs := []run{{"booktiny", b(3, 2, 2), b(4, 2, 3)}, {"book", b(2, 2, 2), b(3, 2, 3)}, {"pay", b(1, 1, 2), b(3, 2, 3)}, {"pool", b(1, 1, 2), b(2, 2, 2)}, {"stake", b(1, 1, 2), b(2, 2, 2)}, {"coin", b(1, 1, 2), b(2, 2, 2)},
 			{"stakepending", b(0, 0, 3), b(1, 1, 3)}, {"valbyz", b(0, 0, 2), b(0, 0, 3)}}
 		var twinRuns, twinHist int64
 		var wr []WorldRun
